@@ -84,7 +84,7 @@ def showKey (s : Sys) : String :=
 def showExtras (s : Sys) : String :=
   let procs := s.nodes.flatMap fun (_, nd) => nd.procs.map fun (p, e) =>
     s!"p{p}:pend={showList (e.pending.map fun t => s!"t{t}")};s={e.sent};r={e.recv};log={e.log.length}"
-  s!"X{showList procs} d={s.depth} tr={s.trace.length}"
+  s!"X{showList procs} d={s.depth} tr={(s.trace.filter (fun e => match e with | .sim _ => false | _ => true)).length}"
 
 def showLog : LogE → String
   | .started => "started"
@@ -101,7 +101,8 @@ def showLog : LogE → String
   | .crashed n => s!"crashed(n{n})"
   | .sim _ => "sim"
 
-def showTrace (t : List LogE) : String := showList (t.map showLog)
+def showTrace (t : List LogE) : String :=
+  showList ((t.filter (fun e => match e with | .sim _ => false | _ => true)).map showLog)
 
 def showState (s : Sys) : String := s!"{showKey s} {showExtras s}"
 
@@ -119,6 +120,7 @@ structure McSt where
   runs : Nat := 0
   dead : Bool := false
   refenum : Bool := false
+  preds : Bool := false
 
 def buildSys (st : McSt) : Sys :=
   let nodes := st.nodes.foldl (fun acc n =>
